@@ -210,6 +210,19 @@ def rel_close(a, b, tol=1e-9):
     return abs(a - b) <= tol * max(abs(a), abs(b)) + 1e-300
 
 
+def mean_close(stored, rs, tol=1e-9):
+    """stored running / batch mean vs the exact mean of the history `rs`: tolerance relative to the magnitude of
+    the rewards (a mean of 0 reached through cancellation carries an absolute rounding error)"""
+    if not rs:
+        return True
+    exact = math.fsum(rs) / len(rs)
+    if stored == exact:
+        return True
+    if math.isnan(stored) or math.isinf(stored):
+        return False
+    return abs(stored - exact) <= tol * max(max(abs(r) for r in rs), abs(exact), 1e-300)
+
+
 def next_pow2(n):
     p = 1
     while p < n:
@@ -348,7 +361,7 @@ def tree_bandit_hooks(name):
                 break
             if x.visited_times != len(exp):
                 case.fail("C04", "visit-count", f"cell ({x.get_depth()},{x.get_index()}) count {x.visited_times} != {len(exp)}", step=t, algo=name); break
-            if exp and not rel_close(float(x.mean_reward), math.fsum(exp) / len(exp)):
+            if exp and not mean_close(float(x.mean_reward), exp):
                 case.fail("C04", "mean", f"stored mean {x.mean_reward!r} vs {math.fsum(exp)/len(exp)!r}", step=t, algo=name); break
             if name == "VHCT":
                 v = max(float(np.var(np.array(exp))), 1e-3) if exp else 1e-3
@@ -598,7 +611,7 @@ def sweep_hooks(name):
             else:
                 if list(x.rewards) != exp or x.visited_times != len(exp):
                     case.fail("C04", "reward-list", f"cell ({x.get_depth()},{x.get_index()}) holds {len(x.rewards)} rewards/count {x.visited_times}, history credits {len(exp)}", step=t, algo=name); break
-                if exp and not rel_close(float(x.mean_reward), math.fsum(exp) / len(exp)):
+                if exp and not mean_close(float(x.mean_reward), exp):
                     case.fail("C04", "mean", f"stored mean {x.mean_reward!r}", step=t, algo=name); break
         if total != S["rounds"]:
             case.fail("C04", "count-sum", f"evidence in the reachable tree sums to {total} after {S['rounds']} rounds", step=t, algo=name)
@@ -817,7 +830,7 @@ def poo_hooks():
         for i, l in enumerate(objs):
             if a.Times[i] != len(l._rewards):
                 case.fail("C10", "count", f"learner {i}: Times={a.Times[i]} but it received {len(l._rewards)} rewards", step=t, algo=name); break
-            if l._rewards and not rel_close(float(a.V_reward[i]), math.fsum(l._rewards) / len(l._rewards)):
+            if l._rewards and not mean_close(float(a.V_reward[i]), l._rewards):
                 case.fail("C10", "score", f"learner {i}: score {a.V_reward[i]!r} != mean of its rewards {math.fsum(l._rewards)/len(l._rewards)!r}", step=t, algo=name); break
             # C04: the learner's own tree holds exactly its rewards
             tot = sum(n.visited_times for n in reachable(l.partition.get_root())) if type(l).__name__ != "T_HOO" else l.partition.get_root().visited_times
@@ -901,7 +914,7 @@ def gpo_hooks(name="GPO"):
                 if c == 2 * half - 1:
                     rs = [x for q_, x in S["vals"] if q_ == ph]
                     g = g_of(a)
-                    if len(g.V_reward) <= ph or not rel_close(float(g.V_reward[ph]), math.fsum(rs) / len(rs)) or len(rs) != half:
+                    if len(g.V_reward) <= ph or not mean_close(float(g.V_reward[ph]), rs) or len(rs) != half:
                         case.fail("C09", "validation-score", f"phase {ph+1}: score {g.V_reward[ph] if len(g.V_reward) > ph else None!r}, mean of its {len(rs)} validation rewards {math.fsum(rs)/len(rs)!r}", step=t, algo=name)
                     S["val_pts"][ph] = list(pt)
             if len(l._rewards) != min(half, c + 1):
@@ -997,7 +1010,7 @@ def zooming_hooks():
             rs = S["ledger"].get(id(x), [])
             if a.pulled_times[x] != len(rs):
                 case.fail("C04", "arm-count", f"arm {x.get_point()} count {a.pulled_times[x]} != {len(rs)}", step=t, algo=name); break
-            if rs and not rel_close(float(a.average_rewards[x]), math.fsum(rs) / len(rs)):
+            if rs and not mean_close(float(a.average_rewards[x]), rs):
                 case.fail("C04", "arm-mean", f"arm {x.get_point()} mean {a.average_rewards[x]!r} != {math.fsum(rs)/len(rs)!r}", step=t, algo=name); break
         if sum(a.pulled_times[x] for x in a.active_points) != S["time"]:
             case.fail("C04", "count-sum", f"arm counts sum to {sum(a.pulled_times[x] for x in a.active_points)} after {S['time']} rounds", step=t, algo=name)
